@@ -470,11 +470,15 @@ def _not_iterable_replay(v):
 
 
 PAIRS_FN = ["eval::value_to_pairs"]
-C07_LEAF_UNITS = [
-    KUnit("c07_pairs_iterable_kinds", "eval_pairs", EVAL, PAIRS_FN, inputs=[("i", "i64"), ("b", "bool")],
-          replay=_not_iterable_replay,
-          note="kind proof over all 8 value kinds (containers empty): Ok iff string / list / object"),
-]
+C07_LEAF_UNITS = []
+for _k in ("null", "bool", "int", "func"):   # "builtin": dropped, does not finish in 300 s
+    C07_LEAF_UNITS.append(KUnit(f"c07_pairs_{_k}_not_iterable", "eval_pairs", EVAL, PAIRS_FN,
+                                inputs=[("i", "i64"), ("b", "bool")],
+                                replay=_not_iterable_replay if _k == "int" else None,
+                                note="kind proof: this kind is not iterable (payload symbolic where there is one)"))
+for _k in ("str", "list", "object"):
+    C07_LEAF_UNITS.append(KUnit(f"c07_pairs_empty_{_k}_iterable", "eval_pairs", EVAL, PAIRS_FN,
+                                note="kind proof: this kind is iterable; the empty container yields no pairs"))
 for _n in (1, 2, 3):
     C07_LEAF_UNITS.append(KUnit(f"c07_pairs_str_len{_n}", "eval_pairs", EVAL, PAIRS_FN, kind="bounded",
                                 bound="string length <= 3 (one harness per length), bytes symbolic",
@@ -485,10 +489,7 @@ for _n in (1, 2, 3):
                                 bound="list length <= 3 (one harness per length), elements Int (payloads symbolic)",
                                 inputs=[("e0", "i64"), ("e1", "i64"), ("e2", "i64"), ("extra", "i64")],
                                 replay=_pairs_list_snapshot_replay(_n)))
-C07_LEAF_UNITS.append(
-    KUnit("c07_pairs_object_ascending_keys", "eval_pairs", EVAL, PAIRS_FN, kind="bounded",
-          bound="object with exactly the keys \"a\", \"b\" inserted in descending order, values Int",
-          inputs=[("va", "i64"), ("vb", "i64")], replay=_pairs_object_replay))
+# c07_pairs_object_ascending_keys: dropped (2-key object > 12 GB); see REPORT_eval_leaf.md
 
 
 UNITS = {
